@@ -13,15 +13,21 @@
        between the two reads gives the same result as a Close just before Check, so one event suffices.)
      ProcessPacket                                 arp.go: RxArp (decoded, valid packet) and RxRaw (any
                                                    EtherType and payload bytes: PayloadID test, ARP.IsValid,
-                                                   field decoding with Go's slice-bound panics)
-     public send API                               Request, RequestTo, Probe, AnnounceTo, RequestRaw, Reply,
-                                                   Scan, WhoIs
+                                                   field decoding with Go's slice-bound panics).  The request
+                                                   branch looks the sender up under arpMutex, unlocks, and only
+                                                   then replies: RxArp decides (the reply is queued), RxReply k
+                                                   is the write of the k-th reply in flight.
+     public send API                               Request, RequestTo, Probe, AnnounceTo, RequestRaw, Reply, WhoIs;
+                                                   Scan is a loop "skip router/host; if h.closed return; Request;
+                                                   sleep": ApiScan starts it, ScanCheck j takes the next address
+                                                   (reading h.closed), ScanSend j is the write; ApiInvalid is any
+                                                   public send call with an address that is not IPv4 or a MAC that
+                                                   is not 6 bytes (ErrInvalidIP / ErrInvalidMAC, nothing written)
    Environment events: SetOffer (the session's DHCPv4IPOffer changes), FailWrites k (the connection fails
    its next k WriteTo calls).
 
-   Residue (not in the model): ProcessPacket's request branch also unlocks arpMutex before it replies (same
-   shape of window as the loop's, one frame per call); Scan is atomic here although Close can land between
-   two of its requests; h.closed is read without a lock; real time (see the fairness hypothesis below). *)
+   Residue (not in the model): h.closed is read without a lock; the probe branch of ProcessPacket reads the
+   session's offer and replies in one step; real time (see the fairness hypothesis below). *)
 From PV Require Import Base.Prelude Base.Slice.
 Open Scope N_scope.
 
@@ -70,15 +76,20 @@ Inductive pc :=
 
 Record loop := mkLoop { laddr : addr; lpc : pc }.
 
+(* a Scan() call in flight: the addresses still to visit, and the address it has decided to ask for *)
+Record scan := mkScan { sips : list ip4; sdec : option ip4 }.
+
 Record state := mkState {
   hunt : list addr;            (* huntList: at most one entry per MAC (key = amac) *)
   loops : list loop;           (* every spoofLoop goroutine ever started, in start order *)
   closed : bool;               (* h.closed / closeChan closed *)
   offers : list (mac * ip4);   (* session view: MACEntry.IP4Offer when it Is4() *)
-  failn : nat                  (* the connection fails its next failn writes *)
+  failn : nat;                 (* the connection fails its next failn writes *)
+  rxq : list frame;            (* spoof replies decided by ProcessPacket calls in flight, not yet written *)
+  scans : list scan            (* every Scan() call ever started *)
 }.
 
-Definition init_state : state := mkState [] [] false [] 0.
+Definition init_state : state := mkState [] [] false [] 0 [] [].
 
 Inductive event :=
 | StartHunt (a : addr)            (* StartHunt with a 6-byte MAC and an IPv4 address *)
@@ -88,7 +99,8 @@ Inductive event :=
 | Lookup (i : nat)
 | Check (i : nat)
 | Send (i : nat)
-| RxArp (p : arp_pkt)             (* ProcessPacket on a valid ARP frame *)
+| RxArp (p : arp_pkt)             (* ProcessPacket on a valid ARP frame, up to the write of a spoof reply *)
+| RxReply (k : nat)               (* the write of the k-th spoof reply in flight *)
 | RxRaw (ethertype : N) (payload : bytes)   (* ProcessPacket on whatever Parse hands over *)
 | SetOffer (m : mac) (o : option ip4)       (* environment: the session's DHCP offer for m changes *)
 | FailWrites (k : nat)            (* environment: the next k writes to the connection fail *)
@@ -99,8 +111,11 @@ Inductive event :=
 | ApiAnnounceTo (dst : mac) (ip : ip4)
 | ApiRequestRaw (dst : mac) (sender target : addr)
 | ApiReply (dst : mac) (sender target : addr)
-| ApiScan
-| ApiWhoIs (ip : ip4) (tries : nat).   (* tries: how many times session.FindIP(ip) fails (environment), 3 at most count *)
+| ApiScan                         (* Scan() is called *)
+| ScanCheck (j : nat)             (* scan j: next address, skip router/host, read h.closed *)
+| ScanSend (j : nat)              (* scan j: the write of the request it decided *)
+| ApiWhoIs (ip : ip4) (tries : nat)    (* tries: how many times session.FindIP(ip) fails (environment), 3 at most count *)
+| ApiInvalid.                     (* a public send call with an unusable address or MAC: error, nothing written *)
 
 (* ---------------------------------------------------------------- *)
 (* hunt list *)
@@ -160,7 +175,8 @@ Definition probe_frame (c : cfg) (ip : ip4) : frame :=
 (* ---------------------------------------------------------------- *)
 (* the one place where frames leave: session.Conn.WriteTo *)
 
-Definition set_failn (s : state) (k : nat) : state := mkState (hunt s) (loops s) (closed s) (offers s) k.
+Definition set_failn (s : state) (k : nat) : state :=
+  mkState (hunt s) (loops s) (closed s) (offers s) k (rxq s) (scans s).
 
 (* result: new state, what went onto the wire, whether WriteTo returned nil *)
 Definition wr (s : state) (f : frame) : state * list frame * bool :=
@@ -172,15 +188,17 @@ Definition wr (s : state) (f : frame) : state * list frame * bool :=
 (* ---------------------------------------------------------------- *)
 (* steps *)
 
-Definition set_hunt (s : state) (h : list addr) : state := mkState h (loops s) (closed s) (offers s) (failn s).
-Definition set_loops (s : state) (l : list loop) : state := mkState (hunt s) l (closed s) (offers s) (failn s).
-Definition set_closed (s : state) : state := mkState (hunt s) (loops s) true (offers s) (failn s).
-Definition set_offers (s : state) (o : list (mac * ip4)) : state := mkState (hunt s) (loops s) (closed s) o (failn s).
+Definition set_hunt (s : state) (h : list addr) : state := mkState h (loops s) (closed s) (offers s) (failn s) (rxq s) (scans s).
+Definition set_loops (s : state) (l : list loop) : state := mkState (hunt s) l (closed s) (offers s) (failn s) (rxq s) (scans s).
+Definition set_closed (s : state) : state := mkState (hunt s) (loops s) true (offers s) (failn s) (rxq s) (scans s).
+Definition set_offers (s : state) (o : list (mac * ip4)) : state := mkState (hunt s) (loops s) (closed s) o (failn s) (rxq s) (scans s).
+Definition set_rxq (s : state) (q : list frame) : state := mkState (hunt s) (loops s) (closed s) (offers s) (failn s) q (scans s).
+Definition set_scans (s : state) (l : list scan) : state := mkState (hunt s) (loops s) (closed s) (offers s) (failn s) (rxq s) l.
 
 (* StartHunt: found -> return; else insert and "go h.spoofLoop(addr)" *)
 Definition start_hunt (s : state) (a : addr) : state * list frame :=
   if hunt_has (amac a) (hunt s) then (s, [])
-  else (mkState (hunt s ++ [a]) (loops s ++ [mkLoop a PTop]) (closed s) (offers s) (failn s), []).
+  else (mkState (hunt s ++ [a]) (loops s ++ [mkLoop a PTop]) (closed s) (offers s) (failn s) (rxq s) (scans s), []).
 
 (* StopHunt: delete(h.huntList, mac); nothing is sent here *)
 Definition stop_hunt (s : state) (m : mac) : state * list frame :=
@@ -249,14 +267,16 @@ Definition classify (p : arp_pkt) : arp_class :=
 
 Definition wr2 (s : state) (f : frame) : state * list frame := fst (wr s f).
 
-(* ProcessPacket after the PayloadID / IsValid tests (h.closed is read without a lock: residue) *)
+(* ProcessPacket after the PayloadID / IsValid tests (h.closed is read without a lock: residue).
+   Request branch: "Lock; _, hunting := huntList[srcMAC]; Unlock; if hunting && DstIP == router { Reply }" — the
+   reply is decided here and written by RxReply. *)
 Definition rx_arp (c : cfg) (s : state) (p : arp_pkt) : state * list frame :=
   if closed s then (s, [])
   else
   match classify p with
   | CRequest =>
       if hunt_has (psmac p) (hunt s) && (ptip p =? router_ip c)
-      then wr2 s (spoof_reply c p) else (s, [])
+      then (set_rxq s (rxq s ++ [spoof_reply c p]), []) else (s, [])
   | CProbe =>
       match offer_of (psmac p) (offers s) with
       | Some offer =>
@@ -307,19 +327,37 @@ Definition process_raw (c : cfg) (s : state) (ethertype : N) (payload : bytes) :
 
 (* ---- public send API ---- *)
 
-(* Scan: "for host := 1; host < n; host++ { ip = ip.Next(); skip router and host; if h.closed return; Request(ip) ... }"
-   with n = 2^(32-bits) - 1; a write error that is not temporary ends the scan *)
+(* Scan: "for host := 1; host < n; host++ { ip = ip.Next(); skip router and host; if h.closed return; Request(ip);
+   sleep }" with n = 2^(32-bits) - 1; a write error that is not temporary ends the scan *)
 Definition scan_ips (c : cfg) : list ip4 :=
   map (fun k => lan_addr c + N.of_nat k) (seq 1 (N.to_nat (2 ^ (32 - lan_bits c) - 2))).
 
-Fixpoint scan_go (c : cfg) (s : state) (ips : list ip4) : state * list frame :=
-  match ips with
-  | [] => (s, [])
-  | ip :: r =>
-      if (ip =? router_ip c) || (ip =? host_ip c) then scan_go c s r
-      else if closed s then (s, [])
-      else let '(s1, out, ok) := wr s (request_to c MAC_BCAST ip) in
-           if ok then let '(s2, out2) := scan_go c s1 r in (s2, (out ++ out2)%list) else (s1, out)
+Definition set_scan (j : nat) (x : scan) (l : list scan) : list scan :=
+  match nth_error l j with Some _ => set_nth j x l | None => l end.
+
+Definition scan_check (c : cfg) (s : state) (j : nat) : state * list frame :=
+  match nth_error (scans s) j with
+  | Some (mkScan (ip :: r) None) =>
+      if (ip =? router_ip c) || (ip =? host_ip c) then (set_scans s (set_scan j (mkScan r None) (scans s)), [])
+      else if closed s then (set_scans s (set_scan j (mkScan [] None) (scans s)), [])
+      else (set_scans s (set_scan j (mkScan r (Some ip)) (scans s)), [])
+  | _ => (s, [])
+  end.
+
+Definition scan_send (c : cfg) (s : state) (j : nat) : state * list frame :=
+  match nth_error (scans s) j with
+  | Some (mkScan r (Some ip)) =>
+      let '(s1, out, ok) := wr s (request_to c MAC_BCAST ip) in
+      (set_scans s1 (set_scan j (mkScan (if ok then r else []) None) (scans s1)), out)
+  | _ => (s, [])
+  end.
+
+(* the write of the k-th reply in flight *)
+Definition remove_nth {A} (k : nat) (l : list A) : list A := (firstn k l ++ skipn (S k) l)%list.
+Definition rx_reply (s : state) (k : nat) : state * list frame :=
+  match nth_error (rxq s) k with
+  | Some f => let '(s1, out, _) := wr s f in (set_rxq s1 (remove_nth k (rxq s1)), out)
+  | None => (s, [])
   end.
 
 (* WhoIs: up to three rounds of "FindIP fails -> Request(ip)"; a write error ends it *)
@@ -340,6 +378,7 @@ Definition step (c : cfg) (s : state) (e : event) : state * list frame :=
   | Check i => check c s i
   | Send i => send s i
   | RxArp p => rx_arp c s p
+  | RxReply k => rx_reply s k
   | RxRaw et b => match process_raw c s et b with Ok r => r | _ => (s, []) end
   | SetOffer m o => (set_offers s (offers_set m o (offers s)), [])
   | FailWrites k => (set_failn s k, [])
@@ -349,8 +388,11 @@ Definition step (c : cfg) (s : state) (e : event) : state * list frame :=
   | ApiAnnounceTo dst ip => wr2 s (announce_ip c dst ip)
   | ApiRequestRaw dst sender target => wr2 s (request_raw dst sender target)
   | ApiReply dst sender target => wr2 s (reply_raw dst sender target)
-  | ApiScan => scan_go c s (scan_ips c)
+  | ApiScan => (set_scans s (scans s ++ [mkScan (scan_ips c) None]), [])
+  | ScanCheck j => scan_check c s j
+  | ScanSend j => scan_send c s j
   | ApiWhoIs ip n => whois_go c s ip (Nat.min n 3)
+  | ApiInvalid => (s, [])
   end.
 
 (* the run: for every position the state before the event, the event and what it emitted *)
@@ -398,8 +440,11 @@ Definition armed_pc (c : cfg) (m : mac) (p : pc) : bool :=
   | PSend f _ => forged c f && (fedst f =? m)
   | _ => false
   end.
+Definition forged_for (c : cfg) (m : mac) (f : frame) : bool := forged c f && (fedst f =? m).
+(* loops armed for m, plus spoof replies to m already decided by ProcessPacket calls in flight *)
 Definition armed (c : cfg) (m : mac) (s : state) : nat :=
-  List.length (filter (fun lp => armed_pc c m (lpc lp)) (loops s)).
+  (List.length (filter (fun lp => armed_pc c m (lpc lp)) (loops s))
+   + List.length (filter (forged_for c m) (rxq s)))%nat.
 
 (* shapes of events, for statements about runs *)
 Definition is_loop_event (i : nat) (e : event) : bool :=
@@ -410,9 +455,12 @@ Definition is_start_of (m : mac) (e : event) : bool :=
 Definition is_api_send (e : event) : bool :=
   match e with
   | ApiRequest _ | ApiRequestTo _ _ | ApiProbe _ | ApiAnnounceTo _ _ | ApiRequestRaw _ _ _ | ApiReply _ _ _
-  | ApiScan | ApiWhoIs _ _ => true
+  | ApiScan | ScanCheck _ | ScanSend _ | ApiWhoIs _ _ | ApiInvalid => true
   | _ => false
   end.
+(* frames a call of the public send API emits are the caller's; a Scan's steps are the caller's call too but
+   they obey Close (see pending_of / C13_close_stops) *)
+Definition is_scan_step (e : event) : bool := match e with ScanCheck _ | ScanSend _ => true | _ => false end.
 Definition none_of (P : event -> bool) (evs : list event) : Prop :=
   forallb (fun e => negb (P e)) evs = true.
 
